@@ -12,11 +12,11 @@ LEVEL_TEXT = {
     "C03": "proof: exhaustive raises clauses on every function of the receive path (implicit raises are paths); listen re-establishes its precondition",
     "C04": "proof: every handler refines the registry step specification (whole-heap frame), per version, composed through both decorators and the dispatch; which outcome a message has (recorded, rejected, unknown node/child named) is fixed by pre-state guards written from the property text, also for exits with an exception the specification does not list",
     "C05": "proof: get_protocol/setter/handle_i_version against select(major,minor); agreement on normal and exceptional exits; type gates per version (the dispatch consults the active module's enums; the enums themselves are pinned to the documented type numbers 0..14 / 0..17 / 0..28 / 0..28 / 0..33 and stream 0..5, since which numbers exist is specification data); which outcome a message has is a clause of its own (outcome-as-specified)",
-    "C06": "proof: exact write-log postconditions (ghost log) of every handler incl. version query and failure prefixes",
+    "C06": "proof: exact write-log postconditions (ghost log) of every handler incl. version query and failure prefixes; which outcomes the version handler may have while the version is unknown (it returns normally only if it made the version known) is a property clause of this check",
     "C07": "proof: flush loop invariant (released gone / only that node / each released entry written once via ghost counter) and wake handler contracts",
     "C08": "proof: exceptional postcondition of the flush loop and its callers (written ones gone, unwritten stay, no repeat) + the release's normal postcondition (a release whose writes succeed leaves nothing of that node: 'written at a later wake'); the outgoing set handler parks a command under its own (node, child, value type) key; bounded native fault enumeration (the property's own quantifier) stands in when the loop is restructured",
     "C09": "proof: rely/guarantee at the await inside the flush loop (shared buffer havocked under the rely before the callee post): no entry is removed whose message the flush did not write, neither before it suspends in the write nor after it resumes; park branch proved await-free; the destination stays flagged sleeping for the whole release (precondition proved at every call site, loop invariant), so a racing send can only park; bounded sweep of 42 native schedules (keys differing in child or in value type only)",
-    "C10": "proof: presentation-request wrapper contract on every decorated handler: one request iff no marker, marker only after a successful write, re-armed by node presentation",
+    "C10": "proof: presentation-request wrapper contract on every decorated handler: one request iff no marker, marker only after a successful write, re-armed by node presentation; the contract of Gateway.send the wrapper is verified against is proved in the same check on Gateway.send and the outgoing handlers",
     "C11": "proof: handle_i_id_request contract (range, fresh, registered before write, response shape, failure frames) over an arbitrary registry",
     "C12": "proof: trichotomy contract of Gateway.send over all commands/buffer flag/versions; outgoing handlers proved on their bodies; 'held and handed to the transport at the next wake' = the release contract's each-released-once / unwritten-stay clauses proved on the release loop (2.0-2.2)",
     "C13": "proof of the repository-code parts (save loop serialises every node; make_node/make_child restore every named attribute; legacy hooks; reach domain of validated fields inside their accept domain incl. the battery handler's range); marshmallow's and json's own field round trips are assumed contracts cross-checked by a bounded native round trip",
